@@ -29,6 +29,7 @@ EXPLANATION = (
     "IOSoftware._can_perform_action refuses when the node is not ON. NOT decided: the number of ticks spent in "
     "BOOTING / SHUTTING_DOWN (counter arithmetic)."
 )
+TECHNIQUE = "static: forward dataflow of the power-state enum over CFGs (transition extraction), must-pass on interface enabling, request-tree validator inventory"
 ASSUMPTIONS = ["no setattr/exec writes to operating_state (dynamic-feature census)",
                "requests reach a node only through its request manager"]
 
